@@ -2326,3 +2326,99 @@ func c15r23(rc *core.RC) {
 	}
 	_ = nLower
 }
+
+// ---- C15.R24 no key is declared unknown before it has been folded ----
+
+// lookupField answers a key with the field of exactly that name, otherwise with the field its case-folded form
+// selects. A shortcut between the two ("a key without an upper-case letter that is not a name needs no folding") is
+// right only if its test knows every letter that folding changes; a test over the ASCII table takes É for a letter
+// without case, and "École" no longer selects the field "école". Obligation: an if statement that returns no field
+// in front of the fold lookup is evaluated (its condition folded with the key bound to each of a set of sample keys
+// with cased letters inside and outside ASCII): it may fire only for keys that strings.ToLower leaves as they are.
+func c15r24(rc *core.RC) {
+	p := rc.P
+	pk := p.Pkg("decoder")
+	if pk == nil {
+		rc.Unknown("decoder", token.NoPos, "package not found")
+		return
+	}
+	info := pk.TypesInfo
+	samples := []string{"abc", "Abc", "aBC", "ÉCOLE", "École", "école", "ÄRGER", "Ärger", "straße", "İstanbul", "ΣΑΣ", "σας", "Жук", "жук", "a_b-1", "K", "ſ", "日本", "Ǆ"}
+	n := 0
+	for _, fd := range p.Funcs("decoder") {
+		if fd.Body == nil {
+			continue
+		}
+		// the fold lookup: an index into foldFieldMap
+		var fold ast.Node
+		ast.Inspect(fd.Body, func(m ast.Node) bool {
+			if ix, ok := m.(*ast.IndexExpr); ok {
+				if f := core.FieldOf(info, ix.X); f != nil && f.Name() == "foldFieldMap" && fold == nil {
+					fold = ix
+				}
+			}
+			return true
+		})
+		if fold == nil {
+			continue
+		}
+		name := p.FuncName(fd)
+		rc.Touch(name)
+		n++
+		var keyParam types.Object
+		for _, f := range fd.Type.Params.List {
+			for _, nm := range f.Names {
+				if o := info.Defs[nm]; o != nil && o.Type().String() == "string" {
+					keyParam = o
+				}
+			}
+		}
+		k := 0
+		for _, st := range fd.Body.List {
+			ifs, ok := st.(*ast.IfStmt)
+			if !ok || ifs.Pos() > fold.Pos() || ifs.Init != nil || len(ifs.Body.List) == 0 {
+				continue
+			}
+			ret, ok := ifs.Body.List[len(ifs.Body.List)-1].(*ast.ReturnStmt)
+			if !ok || len(ret.Results) == 0 {
+				continue
+			}
+			if tv, has := info.Types[ret.Results[0]]; !has || !tv.IsNil() {
+				continue
+			}
+			k++
+			key := fmt.Sprintf("%s/early-unknown#%d only-for-keys-folding-leaves-alone", name, k)
+			if keyParam == nil {
+				rc.Unknown(key, ifs.Pos(), "the key parameter was not found")
+				continue
+			}
+			bad, undecided := "", ""
+			for _, s := range samples {
+				bp := &core.BytePred{P: p, Strings: map[types.Object][]byte{keyParam: []byte(s)}}
+				fires, ok := bp.EvalBool(info, ifs.Cond, core.BindAll(nil))
+				if !ok {
+					undecided = s
+					break
+				}
+				if fires && strings.ToLower(s) != s {
+					bad = s
+					break
+				}
+			}
+			switch {
+			case undecided != "":
+				rc.Unknown(key, ifs.Pos(), "the condition `%s` could not be folded for the key %q", core.Src(p.Fset, ifs.Cond), undecided)
+			case bad != "":
+				rc.Bad(key, ifs.Pos(), "`%s` declares the key %q unknown without folding it, and strings.ToLower changes that key: a field whose name is its lower-case form is not selected (encoding/json matches it)", core.Src(p.Fset, ifs.Cond), bad)
+			default:
+				rc.OK(key, ifs.Pos(), "the shortcut fires for none of the %d sample keys that folding changes", len(samples))
+			}
+		}
+		if k == 0 {
+			rc.OK(name+"/fold-lookup-reached", fd.Pos(), "no return of an unknown key stands between the exact lookup and the fold lookup")
+		}
+	}
+	if n < 1 {
+		rc.Unknown("decoder/fold-lookups", token.NoPos, "no function that consults foldFieldMap found")
+	}
+}
